@@ -69,7 +69,7 @@ CHECKS.update({
    note="Low simulation weight: the schedule is inert, the simulator contributes the transport-supplied source address and the three-party round trip.",
    technique=TECH+"registration inputs x connection source addresses through the real connect path, round-trip parse oracle", design="4 C19"),
  "C10": dict(level="exploration",
-   text=W+"Bursts of 2-8 overlapping update / peer / addNode calls and duplicate copies of one signed request from agents sharing hosts and a wallet (including two keep-alives of one client), interleaved at every store-operation boundary and at the in-transaction yield points of the badger driver (real optimistic conflicts). At quiescence: every balance holder's credit moved by what some one-at-a-time order of the acknowledged requests moves it (interval arithmetic over the charge), the credit sum is conserved, a nonce is honoured at most once, every Balance/Node handed out by a store (and every balance in a reply) is unchanged by later operations. A tenth of the runs is repeated in a -race build in which the scheduler's own hand-offs are hidden from ThreadSanitizer, so accesses the code itself leaves unordered are reported even though they were run one after the other. Two focused variants: c10_same_client (2-4 keep-alives of one client in flight at once) and c10_first_touch (persistent driver, nodes without a balance record whose first credit races their own keep-alive or re-registration, i.e. retried transactions). Schedules: uniform, priority (PCT-style, change-point rate varied per run) and injected stalls (one goroutine frozen where it stands for 5-60 decisions).",
+   text=W+"Bursts of 2-8 overlapping update / peer / addNode calls and duplicate copies of one signed request from agents sharing hosts and a wallet (including two keep-alives of one client), interleaved at every store-operation boundary and at the in-transaction yield points of the badger driver (real optimistic conflicts). At quiescence: every balance holder's credit moved by what some one-at-a-time order of the acknowledged requests moves it (interval arithmetic over the charge), the credit sum is conserved, a nonce is honoured at most once, every Balance/Node handed out by a store (and every balance in a reply) is unchanged by later operations. A tenth of the runs is repeated in a -race build in which the scheduler's own hand-offs are hidden from ThreadSanitizer, so accesses the code itself leaves unordered are reported even though they were run one after the other. Two focused variants: c10_same_client (2-4 keep-alives of one client in flight at once) and c10_first_touch (persistent driver, nodes without a balance record whose first credit races their own keep-alive or re-registration, i.e. retried transactions), plus c10_cold_start (-race build only: the first keep-alives a freshly built balance manager bills arrive at once, with nothing of the harness between the requests but the yield points) and c10_slow_writer (persistent driver, generated plan: one write to a hot record loses 1-300 commit attempts in a row to a faster writer and must still be applied and acknowledged). Schedules: uniform, priority (PCT-style, change-point rate varied per run) and injected stalls (one goroutine frozen where it stands for 5-60 decisions).",
    note="Serialisability is checked on resulting balances and nonce decisions by interval arithmetic rather than by a general linearizability search; peer sets are kept fresh so that no eviction depends on the order. Inside one store call of the memory driver no interleaving is possible under the cooperative scheduler: removed locking there is the race build's job. Socket transport concurrency (gorilla) is covered by C17's race scenario, not here.",
    technique=TECH+"concurrent request bursts interleaved at store-op and in-transaction yield points; serial-order interval oracle, snapshot-immutability registry, race detector with masked hand-offs", design="4 C10"),
  "C18": dict(level="exploration",
@@ -77,7 +77,7 @@ CHECKS.update({
    note="Node and pool are stubs (ethnode.EthNode / pool.Pool interfaces); geth/parity RPC adapters are not run. Peers whose local or pool-side host is loopback/unspecified/empty are a don't-care in strict mode.",
    technique=TECH+"multi-round agent/node/pool histories with injected pool errors vs a reference reconciliation", design="4 C18"),
  "C20": dict(level="exploration",
-   text="Real agent.Agent lifecycle on the simulated clock: sequences of Start, Start-again, Stop, Wait (in separate tasks), forced updates, pool failure at connect or at the k-th keep-alive, intervals 1 s to 10 min: Start while running returns ErrAlreadyStarted and sends nothing, exactly one keep-alive per interval while running and none when stopped, Stop ends the loop and Wait returns, a failed Start leaves nothing running, the agent can be started again after Stop and after the loop died.",
+   text="Real agent.Agent lifecycle on the simulated clock: sequences of Start, Start-again, Stop, Wait (in separate tasks), forced updates (also one that a slow pool is still answering when the next tick fires; the scripted pool refuses overlapping keep-alives of one node as the real one does), pool failure at connect or at the k-th keep-alive, a pool that never answers, intervals 1 s to 10 min: Start while running returns ErrAlreadyStarted and sends nothing, exactly one keep-alive per interval while running and none when stopped, Stop ends the loop and Wait returns, a failed Start leaves nothing running, the agent can be started again after Stop and after the loop died.",
    note="c20_l2_runner runs the production agentRunner (LoadAgent over the --update-interval option space: accepted only inside (5 s, 120 s); LoadPool + Run against the real runPool over a simulated WebSocket; keep-alives counted per interval as the pool's store sees them; Stop ends Run). Stop is only called while the model says the loop runs (Stop blocks by design otherwise).",
    technique=TECH+"lifecycle call sequences on a simulated clock; keep-alive cadence counted per simulated interval", design="4 C20"),
  "C17": dict(level="exploration",
